@@ -148,7 +148,68 @@ def plan(tier, seed):
     for src, vs in (('ov', vec), ('cell', ['n1', 'n2'] + blank_vec), ('lit', ['n1'])):
         phases.append({'name': 'unary-' + src, 'cases': tag(gen_unary(), src, vs), 'runner': 'run_skeletons', 'chunk': 60})
     phases.append({'name': 'literals', 'cases': gen_literals(tier), 'runner': 'run_literals', 'chunk': 400})
+    # text literals: the characters between the quotes are the operand, whatever they look like
+    tl = [{'t': i, 'u': j} for i in range(len(TEXT_LITS)) for j in range(len(TEXT_LITS))]
+    phases.append({'name': 'text-literals', 'cases': tl, 'runner': 'run_text_literals', 'chunk': 100})
     return phases
+
+
+TEXT_LITS = ['a b', 'a  b', 'a\tb', 'a\nb', 'a \n b', ' a', 'a ', '  ', '', 'A', 'a', "it's", '1', '1 ', '(', ')', 'SUM(1)', 'sum(1', 'A1',
+             '$A$1', '+', '%', ',', ';', 'TRUE', 'f(x)', 'ab(', 'a1:b2', "'S'!A1", '1e3', '&', '<>', '{0}', '\\n', '#N/A']
+
+
+def _numlike(t):
+    try:
+        float(t)
+        return True
+    except ValueError:
+        return False
+
+
+def _q(t):
+    return '"' + t.replace('"', '""') + '"'
+
+
+def run_text_literals(cases, stats):
+    items = []
+    for c in cases:
+        t, u = TEXT_LITS[c['t']], TEXT_LITS[c['u']]
+        f = {'Z@0': '=' + _q(t) + '&' + _q(u), 'Y@0': '=' + _q(t) + '=' + _q(u), 'X@0': '=B@0&' + _q(t) + '&B@0', 'W@0': '=A@0=' + _q(t),
+             'V@0': '=' + _q(t) + '<>' + _q(u)}
+        if c['u'] == 0:
+            f['U@0'] = '=' + _q(t)
+            f['T@0'] = '= ' + _q(t) + ' & ' + _q(t) + ' '[:0]
+        items.append({'f': f, 'cells': {'B@0': '<', **({'A@0': u} if u != '' else {})}})
+    res = D.eval_items(items, stats=stats)
+    vio = []
+    for i, (c, it, r) in enumerate(zip(cases, items, res)):
+        t, u = TEXT_LITS[c['t']], TEXT_LITS[c['u']]
+        want = {'Z@0': t + u, 'X@0': '<' + t + '<', 'U@0': t, 'T@0': t + t}
+        try:
+            if t != u and _numlike(t) and _numlike(u):
+                raise R.Unspecified('two numeric-looking texts')     # C10: explored there, laws only
+            eq = R.compare('=', t, u)
+            want.update({'Y@0': eq, 'V@0': not eq})
+            if u != '':
+                want['W@0'] = eq
+        except R.Unspecified:
+            stats['x:explored_not_judged'] += 1      # texts that differ in case only: C10's statement, not fixed here
+        for a, w in want.items():
+            if a not in it['f']:
+                continue
+            out = r[a]
+            stats['validated'] += 1
+            stats['nontrivial'] += 1
+            stats['out:' + _label(out)] += 1
+            ok = out[0] == 'VALUE' and type(out[1]) is type(w) and out[1] == w
+            if not ok:
+                desc = {'lvl': 'TXT', 'src': 'lit', 'form': {'Z@0': 'lit&lit', 'Y@0': 'lit=lit', 'X@0': 'cell&lit&cell', 'W@0': 'cell=lit',
+                                                             'V@0': 'lit<>lit', 'U@0': 'lit', 'T@0': 'lit & lit'}[a],
+                        'features': sorted({('blanks' if '  ' in x else 'tab' if '\t' in x else 'newline' if '\n' in x else
+                                             'quote' if '"' in x else 'plain') for x in (t, u)}),
+                        'outcome': out[0] if out[0] != 'VALUE' else 'VALUE_MISMATCH'}
+                vio.append({'i': i, 'desc': desc, 'expected': D.enc(w), 'observed': [it['f'][a], D.enc(out[1]) if out[0] == 'VALUE' else list(out)]})
+    return vio
 
 
 # ---------------------------------------------------------------------------------------------
